@@ -1,5 +1,6 @@
 (* C16 - The wire encodings are the CCTP formats and round-trip exactly. *)
 From Cctp Require Import Lib.Bytes Model.Codec Spec.Layout Proofs.CodecFacts.
+From Cctp Require Import Gen.GenLib Gen.Consts Gen.CheckConsts.
 
 (* The model's codec is the independent reference layout (literal offsets 0/4/8/12/20/52/84/116 and
    0/4/36/68/100/132, big-endian), on every byte string and every value. *)
@@ -73,7 +74,14 @@ Example C16_example :
   | None => False end.
 Proof. vm_compute. repeat split. Qed.
 
+(* The offset constants of the Go source as it is now (x/cctp/types/constants.go, regenerated on every run) are
+   the numbers of the CCTP layouts. *)
+Theorem C16_go_constants_are_the_layout :
+  forallb (fun kv => match assoc (fst kv) go_int_consts with Some v => Z.eqb v (snd kv) | None => false end) expected_ints = true.
+Proof. exact constants_are_the_cctp_layout. Qed.
+
 Print Assumptions C16_message_decode_is_layout.
+Print Assumptions C16_go_constants_are_the_layout.
 Print Assumptions C16_message_encode_is_layout.
 Print Assumptions C16_burn_decode_is_layout.
 Print Assumptions C16_burn_encode_is_layout.
